@@ -198,6 +198,7 @@ def pcase(entry, rnt, n, content, info, failk=0):
     return Case(line, info)
 
 def parse_corpus(ctx, pid, extra_info=None):
+    init(ctx)
     """corpus lines `parse <entry> <rnt> <n> <hex> [failk]` with their info rebuilt, so the verdict oracles apply to them"""
     out = []
     for c in load_corpus(ctx['verif'], pid):
@@ -244,7 +245,7 @@ def deep_text(kind, d, closed=True):
 
 def stream_depth(rng):
     cases = []
-    for d in (998, 999, 1000, 1001, 1002):
+    for d in (NESTING_LIMIT - 2, NESTING_LIMIT - 1, NESTING_LIMIT, NESTING_LIMIT + 1, NESTING_LIMIT + 2):
         for kind in '[{':
             t = deep_text(kind, d)
             cases.append(pcase('L', 0, len(t), t, {'tags': ['depth', 'depth%d' % d], 'depth': d}))
@@ -380,7 +381,13 @@ def stream_wide(rng):
         cases.append(pcase('P', 0, 0, text + b'\0', {'tags': ['valid', 'wide'], 'accept_only': True}))
     return cases
 
+def init(ctx):
+    """reads CJSON_NESTING_LIMIT from the source under test (the python oracles and the depth streams follow it)"""
+    global NESTING_LIMIT
+    NESTING_LIMIT = nesting_limit(ctx['repo'])
+
 def all_streams(ctx, salt):
+    init(ctx)
     rng = random.Random(ctx['seed'] * 6700417 + salt)
     quick = ctx['tier'] == 'quick'
     cases = []
